@@ -44,6 +44,7 @@ type effect struct {
 	fieldSrc  func(fa *ssa.FieldAddr) bool
 	violInstr map[string]ssa.Instruction
 	cell      map[*ssa.Alloc]int
+	fvCell    map[*ssa.FreeVar]*ssa.Alloc // captured variables: the cell of the enclosing function a literal reads and writes
 }
 
 func isRefT(t types.Type) bool {
@@ -246,6 +247,12 @@ func (a *effect) step(f *ssa.Function) {
 						a.add(x, a.cell[al])
 						break
 					}
+					if fv, isFV := x.X.(*ssa.FreeVar); isFV {
+						if al := a.fvCell[fv]; al != nil {
+							a.add(x, a.cell[al])
+							break
+						}
+					}
 					a.add(x, content(a.fl[x.X])|a.locFlag(locOfAddr(x.X)))
 					if g, ok := x.X.(*ssa.Global); ok {
 						a.add(x, a.locFlag("G:"+g.String()))
@@ -289,6 +296,15 @@ func (a *effect) step(f *ssa.Function) {
 				fn := x.Fn.(*ssa.Function)
 				for i, bnd := range x.Bindings {
 					a.add(fn.FreeVars[i], a.fl[bnd])
+					if al, isCell := bnd.(*ssa.Alloc); isCell && i < len(fn.FreeVars) {
+						if a.fvCell == nil {
+							a.fvCell = map[*ssa.FreeVar]*ssa.Alloc{}
+						}
+						if a.fvCell[fn.FreeVars[i]] != al {
+							a.fvCell[fn.FreeVars[i]] = al
+							a.work = true
+						}
+					}
 				}
 			case *ssa.Store:
 				a.sites++
@@ -301,6 +317,15 @@ func (a *effect) step(f *ssa.Function) {
 						a.work = true
 					}
 					break
+				}
+				if fv, isFV := x.Addr.(*ssa.FreeVar); isFV {
+					if al := a.fvCell[fv]; al != nil {
+						if a.cell[al]|a.fl[x.Val] != a.cell[al] {
+							a.cell[al] |= a.fl[x.Val]
+							a.work = true
+						}
+						break
+					}
 				}
 				if a.fl[x.Val] != 0 {
 					a.setLoc(locOfAddr(x.Addr))
